@@ -49,6 +49,11 @@ func routeGen(kind string, sequential bool) func(r *rand.Rand, tier string) []sp
 			if kind != "mux" {
 				nextID = map[string]uint32{"host": 1, "plugin": 1}
 			}
+			wrapIDs := i%5 == 3 && !sequential
+			if wrapIDs {
+				// ids around the uint32 wrap: ..., MaxUint32-1, MaxUint32, 0, 1, ...
+				nextID = map[string]uint32{"host": ^uint32(0) - uint32(r.Intn(3)), "plugin": ^uint32(0) - uint32(r.Intn(3))}
+			}
 			var open [][2]any
 			for j := 0; j < k; j++ {
 				it := spec.RouteItem{Dir: pick(r, []string{"host", "plugin"}), AcceptFirst: r.Intn(2) == 0, Len: r.Intn(5000)}
@@ -93,6 +98,11 @@ func routeGen(kind string, sequential bool) func(r *rand.Rand, tier string) []sp
 			}
 			if kind == "mux" {
 				p.DispG, p.DispN = 1+r.Intn(6), 1+r.Intn(5)
+				if wrapIDs {
+					p.DispG = 0 // dispenses reserve ids from the same counter range: keep them apart
+				} else if i%5 == 1 {
+					p.WrapDispense = true
+				}
 			}
 			if kind == "grpcmux" && (i%8 == 4 || i%8 == 6) && len(p.Items) > 6 {
 				// one establishment whose acceptor only starts serving 6 s after it registered
